@@ -45,9 +45,27 @@ def case_sliced(case, res):
     scn = fullrun.scenarios()[case['scenario']]
 
     def judge(run):
-        return [(k + ':' + case['scenario'] + ':served-mid-job', d)
-                for k, d in fullrun.judge_c10(run, res)]
+        out = [(k + ':' + case['scenario'] + ':served-mid-job', d)
+               for k, d in fullrun.judge_c10(run, res)]
+        # a query served in the middle of a job may be refused, but not with an internal error
+        for m in run.s.x_clients['c2'].messages:
+            if isinstance(m.get('error'), dict) and m['error'].get('code') == -32603:
+                sent = {x['id']: x for x in run.s.x_clients['c2'].x_sent}.get(m.get('id'), {})
+                out.append(('query-served-mid-job-ended-in-internal-error:' + case['scenario'],
+                            dict(method=sent.get('method'), params=str(sent.get('params'))[:80])))
+                break
+        return out
 
+    if case.get('torn'):
+        # the queries' own reads are torn by the mutation (split mode of vf/slicedsys.py)
+        found = slicedsys.enumerate_splits(
+            lambda: fullrun.make(scn, immediate=True), lambda s: scn['script'](),
+            inject_queries(case['variant']), judge, res, case['scenario'], closing_ticks=12,
+            only=case.get('kib'), i_max=3, b_set=(1, 3, 6, 12))
+        for kib, key, detail in found:
+            res.violation(key.replace(':served-mid-job', ':read-torn-by-a-job'),
+                          dict(case, kib=list(kib)), detail)
+        return
     found = slicedsys.enumerate_points(
         lambda: fullrun.make(scn, immediate=True), lambda s: scn['script'](),
         inject_queries(case['variant']), judge, res, case['scenario'], closing_ticks=12,
@@ -85,6 +103,9 @@ def cases_for(tier):
     for name in SLICED:
         for variant in (0, 1):
             cases.append(dict(sliced=True, scenario=name, variant=variant))
+    for name in (('two-blocks', 'reorg-vanish-depth2') if tier == 'quick' else SLICED):
+        for variant in (0, 1):
+            cases.append(dict(sliced=True, torn=True, scenario=name, variant=variant))
     return cases
 
 
@@ -106,6 +127,7 @@ def run(tier, seed, started):
         'deviation_bound_completed': 1 if tier == 'quick' else '2 on ' + ', '.join(BOUND2) + '; 1 on the others',
         'choice_points': c['choice_points'], 'queries_judged_at_quiescence': c['queries_judged'],
         'sliced_executions(queries served mid-job)': c['sliced_executions'],
+        'torn_read_executions': c.get('torn_read_executions', 0),
         'slice_sites': sorted(map(str, res.sets.get('slice_sites', ()))),
         'deviation_kinds_used': sorted(kinds),
         'exhaustive': c.get('exploration_cap_hits', 0) == 0,
